@@ -181,7 +181,7 @@ def run(ctx, c19=False):
     # short object-formula histories: one structure, three formulas of the restricted alphabets with recurring
     # subformulas (no rewriting: the algorithms receive the caller's own objects), each called twice, no fairness
     if not c19:
-        for _ in range(400 if q else 6000):
+        for _ in range(400 if q else 3000):
             K = gen.rand_kripke(rnd, rnd.choice([2, 3, 4]))
             fs = []
             while len(fs) < 3:
@@ -197,7 +197,7 @@ def run(ctx, c19=False):
                           'pres': [{'naming': rnd.choice(['int', 'str', 'obj']), 'shuf': rnd.randrange(1 << 30)}], 'seed': rnd.randrange(1 << 30)})
     # short histories around boundary answers: a query whose answer is the whole state set (or the empty set) under every
     # operator shape, an edit of the returned set (size-preserving or not), the same query again, then other queries
-    for _ in range(500 if q else 8000):
+    for _ in range(500 if q else 3000):
         K = gen.rand_kripke(rnd, rnd.choice([2, 3, 4]))
         taut = rnd.choice([TR, ('or', P, ('not', P)), ('not', FA), ('imp', P, P)])
         if rnd.random() < 0.3:       # an atom that happens to hold everywhere in this structure
@@ -224,7 +224,7 @@ def run(ctx, c19=False):
         hists.append({'ks': [K], 'fs': fs, 'steps': steps, 'family': 'short history around boundary answers', 'pres': pres, 'seed': rnd.randrange(1 << 30)})
     # medium sparse structures (9-12 states, every atom in one or two states): many different next-time / reachability queries
     # interleaved on ONE structure object (an index or cache kept on the structure must not be disturbed by a query)
-    for _ in range(150 if q else 3000):
+    for _ in range(150 if q else 1000):
         n = rnd.randint(9, 12)
         K = gen.rand_kripke(rnd, n, density=rnd.choice([0.1, 0.15, 0.2]))
         K = dict(K, L=[sorted(x for x in 'pq' if rnd.random() < 0.15) for _i in range(n)])
